@@ -1,8 +1,10 @@
 import TemplVerif.Drive.Common
 import TemplVerif.Spec.HtmlTok
 import TemplVerif.Model.Attrs
+import TemplVerif.Model.Expect
+import TemplVerif.Drive.AstParse
 namespace TemplVerif.Drive.C01
-open TemplVerif TemplVerif.Drive TemplVerif.HtmlTok TemplVerif.Attrs
+open TemplVerif TemplVerif.Drive TemplVerif.HtmlTok TemplVerif.Attrs TemplVerif.Sem
 
 /-- x/net/html normalises CR and CRLF to LF in text and attribute values; the WHATWG input-stream
     preprocessing does the same for any document, so the comparison is modulo that. -/
@@ -128,6 +130,34 @@ def handle : List String → Verdict
       { mismatch := if model == opn then none else some s!"impl={Bytes.toHex opn} model={Bytes.toHex model}",
         predfail := if toks == expect then none else some s!"JSON script open tag tokenizes to {serTokens toks}",
         nontrivial := true, tags := ["jsonopen"], sig := "jsonopen" }
+    | _, _, _, _ => .badOp
+  -- composition (Props/C01: C01_compose): a whole generated template of the markup fragment, rendered by the real
+  -- generator + compiler + runtime; the tokenizer must read the real bytes as the author's token stream.
+  | ["build", errH, _srcH] =>
+    match hexField errH with
+    | some [] => { nontrivial := true, tags := ["compose-batch-compiles"], sig := "build" }
+    | some e => { mismatch := some s!"the batch of markup templates for the composition check did not build or run: {(String.ofList (e.map fun (c : UInt8) => Char.ofNat c.toNat)).take 600}",
+                  nontrivial := true, tags := ["compose-batch-broken"], sig := "build;broken" }
+    | none => .badOp
+  | ["compose", astS, envS, outH, errH, _traceS, _srcH] =>
+    match AstParse.body astS, AstParse.env envS, hexField outH, hexField errH with
+    | some body, some env, some out, some errMsg =>
+      if !Expect.nodesOK body then { skipped := true, tags := ["compose-outside-fragment"] } else
+      let d := Denote.run body env
+      if d.stuck then { skipped := true, tags := ["compose-outside-vocabulary"] } else
+      if !errMsg.isEmpty || d.err then
+        { mismatch := if d.err == !errMsg.isEmpty then none else some s!"composition: model error={d.err}, rendered error={!errMsg.isEmpty}",
+          tags := ["compose-render-error"], sig := "compose;error" } else
+      let toks := tokenize out
+      let want := Expect.tokens body env
+      let holes := env.any fun (_, en) => match en.val with
+        | .str v _ => v.any (fun b => Html.structural b || b == 38)
+        | _ => false
+      { mismatch := if d.out == out then none else some "composition: the denotation writes a different document than the compiled template (see C02)",
+        predfail := if toks == want then none else
+          some s!"the tokenizer does not read the rendered template as the author's token stream: got={serTokens toks} want={serTokens want}",
+        nontrivial := holes && toks.length > 1,
+        tags := ["compose", if toks.length > 8 then "compose-tokens-over-8" else "compose-tokens-upto-8"], sig := "compose" }
     | _, _, _, _ => .badOp
   | _ => .badOp
 
